@@ -296,12 +296,18 @@ def _under_args_are_xy(b, bi):
         if not (b.reachable(sj) and t["k"] == "switch"):
             continue
         d = sym.strip(prov.op(t["discr"]))
+        negated = False
+        while d[0] == "un" and d[1] == "Not":          # `let point_numbers = !flags.args_are_xy_values(); if point_numbers {..} else {..}`
+            negated = not negated
+            d = sym.strip(d[2])
         if not (d[0] == "call" and str(d[1] or "").endswith("::args_are_xy_values")):
             continue
         true_tgts = [tg for v, tg in t["arms"] if v != 0]
         if t.get("otherwise") is not None and all(v == 0 for v, _ in t["arms"]):
             true_tgts.append(t["otherwise"])
         false_tgts = [tg for v, tg in t["arms"] if v == 0]
+        if negated:
+            true_tgts, false_tgts = false_tgts, true_tgts
         for tg in true_tgts:
             if tg not in false_tgts and b.dominates(tg, bi):
                 return True
